@@ -463,11 +463,54 @@ class Result:
         return 1 if self.violations else 0
 
 
+# module prefixes whose axioms coqchk may report for this development: the standard library's primitive floats and
+# 63-bit integers (their specifications are axioms of the library), its real numbers and classical logic. Nothing
+# under Alator.* (this development) and nothing else.
+COQCHK_ALLOWED_PREFIXES = ("Coq.Floats.", "Coq.Numbers.Cyclic.Int63.", "Coq.Reals.", "Coq.Logic.", "Coq.setoid_ring.",
+                           "Coq.Strings.PrimString", "Coq.Array.")
+
+
+def run_coqchk(prop_files):
+    """coqchk: re-check the compiled property files and everything they depend on with the independent checker.
+    -> dict(ok, axioms, problems, cmd)"""
+    if not prop_files:
+        return dict(ok=True, axioms=[], problems=[], cmd="(no property file)")
+    mods = " ".join("Alator.Props.%s" % pf for pf in prop_files)
+    cmd = "coqchk -silent -o -Q . Alator %s" % mods
+    rc, out = sh(cmd + " 2>&1", cwd=COQ, timeout=3000)
+    problems = []
+    if rc != 0:
+        problems.append("coqchk failed:\n" + out[-2000:])
+    axioms = []
+    sect = None
+    for line in out.split("\n"):
+        t = line.strip()
+        if t.startswith("* "):
+            sect = t
+            for key in ("type-in-type", "unsafe (co)fixpoints", "positivity is assumed"):
+                if key in t and not t.endswith("<none>"):
+                    problems.append("coqchk: " + t)
+            continue
+        if sect and sect.startswith("* Axioms") and t and not t.startswith("*"):
+            axioms.append(t)
+    bad = [a for a in axioms if not a.startswith(COQCHK_ALLOWED_PREFIXES)]
+    if bad:
+        problems.append("coqchk reports axioms outside the standard library's floats / ints / reals / logic: %s" % bad[:10])
+    return dict(ok=not problems, axioms=axioms, problems=problems, cmd="cd /verif/coq && " + cmd)
+
+
 def obligations_or_violation(res, prop_files):
     ob = check_obligations(prop_files)
     if not ob["ok"]:
         res.violation(dict(kind="proof-obligation", problems=ob["problems"],
                            theorem_files=prop_files), "proof", no_input=True)
+    elif res.tier == "thorough" and prop_files:
+        ck = run_coqchk(prop_files)
+        res.coverage["coqchk"] = dict(cmd=ck["cmd"], ok=ck["ok"], axioms_of_all_loaded_libraries=len(ck["axioms"]),
+                                      axioms_by_library=sorted({".".join(a.split(".")[:3]) for a in ck["axioms"]}))
+        if not ck["ok"]:
+            res.violation(dict(kind="proof-obligation", problems=ck["problems"], theorem_files=prop_files,
+                               checker="coqchk"), "coqchk", no_input=True)
     return ob
 
 
